@@ -43,12 +43,25 @@ def _set_fuzzed(prop, tier, kind, owners, cov, viols, inc):
     return out, viols + v2, inc + i2
 
 
+DEFAULTS_RULE = (" Plus the defaults engine: the library with its DEFAULT template arguments (std::less / std::greater, amc::allocator / std::allocator, default "
+                 "size_type, std::set or FlatSet as the large set) over int, 64-bit integers at the extremes of their range, double, std::string (short and long) "
+                 "and pair<int,string> elements, every call compared with std::vector / std::set under ASan/UBSan/LSan.")
+
+
+def _defaults(prop, tier, family, owners, cov, viols, inc):
+    """the defaults engine (harness/defaults_main.cpp), family in --vec / --flat / --small"""
+    cfgs = sets.DEFAULTS_QUICK + (sets.DEFAULTS_THOROUGH if tier == "thorough" else [])
+    c2, v2, i2 = sets.run_engine(prop, tier, cfgs, 960, 9600, ops=120, extra_args=[family], crash_owners=owners)
+    return sets.merge_cov(cov, c2), viols + v2, inc + i2
+
+
 def c01(tier):
     t0 = time.time()
     cov, viols, inc = _vec_fuzzed("C01", tier)
+    cov, viols, inc = _defaults("C01", tier, "--vec", ("C01",), cov, viols, inc)
     cov["rule"] = ("random operation histories over a pool of 4 same-typed vectors + 2 partner vectors of another flavour, every call compared with a "
                    "std::vector model (sequence by key and unique payload, return values, returned positions, comparisons); a cell is distinct by "
-                   "(configuration, operation, operand state classes, argument class); trivial cells (default construction, destruction) are not counted." + FUZZ_RULE)
+                   "(configuration, operation, operand state classes, argument class); trivial cells (default construction, destruction) are not counted." + FUZZ_RULE + DEFAULTS_RULE)
     return core.finish("C01", tier, "exploration", cov, viols, inc, t0, ASSUME_SAN, min_evals=1000)
 
 
@@ -140,9 +153,10 @@ def c03(tier):
     t0 = time.time()
     cov, viols, inc = sets.run_engine("C03", tier, sets.flatset_cfgs(tier), 300, 3000)
     cov, viols, inc = _set_fuzzed("C03", tier, "fs", ("C03", "C02"), cov, viols, inc)
+    cov, viols, inc = _defaults("C03", tier, "--flat", ("C03",), cov, viols, inc)
     cov["rule"] = ("random operation histories over a pool of 3 FlatSets + one FlatSet with another comparator + a spare vector; every call compared with "
                    "std::set models built with the same comparator object (sequence by key and payload, booleans, counts, bounds, positions, node state), "
-                   "strict comparator order after every call, comparator provenance; distinct cell = (configuration, operation, size class, argument class)." + FUZZ_RULE)
+                   "strict comparator order after every call, comparator provenance; distinct cell = (configuration, operation, size class, argument class)." + FUZZ_RULE + DEFAULTS_RULE)
     return core.finish("C03", tier, "exploration", cov, viols, inc, t0, ASSUME_SAN, min_evals=1000)
 
 
@@ -161,9 +175,10 @@ def _smallset(prop, tier, owners):
     cov2, v2, i2 = sets.run_engine(prop, tier, cfgs, 200, 3000, ops=80, crash_owners=owners)
     cov = sets.merge_cov(cov1, cov2)
     cov, v2, i2 = _set_fuzzed(prop, tier, "ss", owners, cov, v2, i2)
+    cov, v2, i2 = _defaults(prop, tier, "--small", owners, cov, v2, i2)
     for k in ("states", "transitions", "per_configuration", "exhaustive"):
         cov[k] = cov1[k]
-    cov["rule"] = SS_RULE + FUZZ_RULE
+    cov["rule"] = SS_RULE + FUZZ_RULE + DEFAULTS_RULE
     cov["exhaustive_scope"] = "small-scope state space only (N<=3, 5 keys); the random histories are a sample"
     return cov, v1 + v2, i1 + i2, t0
 
@@ -506,6 +521,6 @@ def replay(path):
     return 1
 
 
-EXTRA_SETUP = [lambda: [c16.spec(b) for b in c16.matrix("quick")], lambda: [c20.spec()], lambda: [fuzz.spec_of(c) for c in vec.FUZZ_QUICK + sets.fuzz_cfgs('fs', 'quick') + sets.fuzz_cfgs('ss', 'quick')]]
+EXTRA_SETUP = [lambda: [c.spec() for c in sets.DEFAULTS_QUICK], lambda: [c16.spec(b) for b in c16.matrix("quick")], lambda: [c20.spec()], lambda: [fuzz.spec_of(c) for c in vec.FUZZ_QUICK + sets.fuzz_cfgs('fs', 'quick') + sets.fuzz_cfgs('ss', 'quick')]]
 
 CHECKS = {"C01": c01, "C02": c02, "C05": c05, "C06": c06, "C07": c07, "C03": c03, "C04": c04, "C11": c11, "C12": c12, "C19": c19, "C18": c18, "C10": c10, "C08": c08, "C09": c09, "C13": c13, "C15": c15, "C16": c16_check, "C17": c17_check, "C14": c14, "C20": c20_check}
